@@ -1026,6 +1026,18 @@ class FnKinds:
     # ---------------------------------------------------------------------------------------------
     # loops
     # ---------------------------------------------------------------------------------------------
+    def _add_terms(self, n, sign=1, depth=0):
+        """additive normal form of an expression: sorted list of (sign, canonical term)"""
+        n = strip(n)
+        if n is None:
+            return []
+        if depth < 8 and n.get("k") == "Bin" and n.get("op") in ("+", "-"):
+            return sorted(self._add_terms(n["lhs"], sign, depth + 1) + self._add_terms(n["rhs"], sign if n["op"] == "+" else -sign, depth + 1))
+        if depth < 8 and n.get("k") == "Ref" and n.get("dk") == "local" and self.is_single(n.get("d")) and self.locals[n["d"]].get("init") is not None \
+                and n.get("d") not in self.loopvars and n.get("d") not in self.itervars:
+            return self._add_terms(self.locals[n["d"]]["init"], sign, depth + 1)
+        return [(sign, self.canon(n))]
+
     def _resolve_iter_start(self, n, depth=0):
         """follow single-def iterator copies to the MCall that produced the iterator"""
         n = strip(n)
@@ -1786,6 +1798,7 @@ class FnKinds:
             ok = self.within(r, arr.extent)
         return self.ev("sub", node, arr=arr, idx=idx, rng=r, mode=mode, ok=ok, val=val, op=op,
                        idx_canon=self.canon(idx), val_canon=(self.canon(_assigned_value(val)) if val is not None else None),
+                       val_terms=(self._add_terms(_assigned_value(val)) if val is not None and mode == "write" else None),
                        val_rng=(self.rng(val) if val is not None and mode == "write" else None),
                        extent=(self.norm(arr.extent) if arr is not None and arr.extent is not None else None))
 
